@@ -867,10 +867,47 @@ def concurrent_scenario(res, tag, single, k, rng, rounds):
     return xfer_events, req_events, alive
 
 
+def exhaustive_pairs(single):
+    """Every interleaving (at step granularity) of two short transfers: a 3-block download and a
+    3-block upload, both orders of starting."""
+    import itertools
+    sb, srv = with_server("pairs-%s" % ("s" if single else "m"), shared=True, single=single, ow=True)
+    events = []
+    try:
+        content = b"".join(X.payload(500 + i, 8 if i < 3 else 5) for i in range(1, 4))
+        open(os.path.join(sb.send, "pair.bin"), "wb").write(content)
+        n = 0
+        for first in ("d", "u"):
+            for sched in sorted(set(itertools.permutations("dddduuuu"))):
+                n += 1
+                d = X.Download(srv, "pair-%d-d" % n, b"pair.bin", content, opts=[("blksize", 8)])
+                u = X.Upload(srv, "pair-%d-u" % n, ("pair_up_%d.bin" % n).encode(), 3, 5, opts=[("blksize", 8)],
+                             target=os.path.join(sb.recv, "pair_up_%d.bin" % n))
+                for c in ((d, u) if first == "d" else (u, d)):
+                    c.start()
+                for who in sched:
+                    c = d if who == "d" else u
+                    if not c.done:
+                        c.step()
+                for c in (d, u):
+                    while not c.done:
+                        c.step()
+                X.server_outcomes(srv, [d, u], wait=0.5)
+                for c in (d, u):
+                    events += c.events
+                    c.close()
+    finally:
+        drop_server(sb, srv)
+    return events
+
+
 def c12(res):
     q = res.tier == "quick"
     rng = random.Random(C.seed())
     W.model_check(res, "MC_Server_Iso", module="MC_Server")
+    for single in ((True,) if q else (False, True)):
+        file_scenario_deviations(res, exhaustive_pairs(single), "pairs-%s" % ("single" if single else "multi"),
+                                 "a client's projection under an exhaustively enumerated interleaving of two transfers is not a lone transfer")
     for single in (False, True):
         tag = "concurrent-%s" % ("single" if single else "multi")
         xe, re_, alive = concurrent_scenario(res, tag, single, k=5 if q else 16, rng=rng, rounds=6 if q else 20)
